@@ -1,25 +1,29 @@
 import SfxProps.C16
 import SfxProofs.TrigAccC16
 import SfxProofs.TrigAccTan2C16
+import SfxProofs.TrigAccTan3C16
 /-
-  C16, the numeric clauses of `C16.C16_statement` (SfxProps/C16.lean), proved over Mathlib's reals (`Real.sin`, `Real.cos`, `Real.tan`):
+  C16 — PROVED IN FULL: `holds : C16_statement` (SfxProps/C16.lean), over Mathlib's reals (`Real.sin`, `Real.cos`, `Real.tan`), for
+  every supported signed type (≥ 9 integer bits, ≥ 23 fractional bits, any width) and every operand.
 
-    * `sin_cos_holds`  — the sin/cos clause at FULL strength: every angle |x| ≤ 200 of every supported type, error ≤ 2^-16
-                         (the proof gives 104.65 / 105.29 units of 2^-23 out of the 128 allowed), result within [-1-2^-16, 1+2^-16];
-    * `tan_holds`      — the tan clause for `|tan x| ≤ tanT f` where `tanT f = 64` (FULL) for every type with at least 24 fractional bits
-                         and `tanT 23 = 30` for the three layouts with exactly 23 (I9F23, I41F23, I105F23);
-    * `holds_f24`      — the whole body of `C16_statement` for every supported type with at least 24 fractional bits;
-    * `C16_statement_partial` — `C16_statement` with `tanT D.f` in place of 64: the only weakening is f = 23, 30 < |tan x| ≤ 64;
-    * `statement_of_f23` — `C16_statement` follows from exactly that remaining case.
+    * `sin_cos_holds`  — every angle |x| ≤ 200: error ≤ 2^-16 (the proof gives 104.65 / 105.29 units of 2^-23 out of the 128
+                         allowed), result within [-1-2^-16, 1+2^-16];
+    * `tan_holds_64`   — every |x| ≤ 100 with |tan x| ≤ 64: error ≤ (1 + tan² x)/2^14;
+    * `holds`          — the whole statement.
+  Kept from earlier stages: `tan_holds` (threshold `tanT f` by real analysis alone: 64 for f ≥ 24, 30 for f = 23), `holds_f24`,
+  `C16_statement_partial`, `statement_of_f23`.
 
-  The open case cannot be closed by worst-case error bounds: at |tan x| = 64 the vector error of the inner cos call would have to be
-  ≤ 12 ulp, the provable worst case is 22–26 ulp, the measured maximum is 10.83 ulp.  An exhaustive evaluation of all 1 677 721 601
-  I9F23 operands with |x| ≤ 100 (C transcription of the model, cross-checked against `#eval`; search support, not a proof) found worst
-  ratio 0.484 of the allowed error and no panic; the mpmath oracle judges the implementation's answers in that region on every run.
+  How the tan clause is closed: for f ≥ 24 by real analysis alone (angle-type errors rotate numerator and denominator coherently,
+  vector-type errors are bounded by a backward invariant).  For f = 23 (I9F23, I41F23, I105F23 — the computation is width-independent,
+  `sinPure_width_indep`) and 30 < |tan x| ≤ 64 worst-case bounds do not suffice (needs ≤ 12 ulp vector error in the inner cos call,
+  provable 22–26); there the reduced angle of the cos call lies in a window of 299 000 grid points next to −π/2 (`window`, analytic) and
+  the KERNEL evaluates the 24 CORDIC steps for every one of them (`decide +kernel` over a Nat-encoded iteration proved equal to the model's,
+  `nrun_spec`; 16 generated files `TrigAccTan3E00..15.lean`, generator tools/gen_tan3.py) and checks each against a certified degree-4
+  cosine enclosure: error ≤ 11.05 ulp.  No `native_decide`; axioms: propext, Classical.choice, Quot.sound.
 
   Ingredients (SfxProofs/TrigAcc*.lean): `table_arctan` (each of the 24 table entries within 2^-53 of `Real.arctan 2^-i`, via a Gregory
   series enclosure), π enclosures for the 23-bit range-reduction constants, the abstract CORDIC rotation invariant with truncation, the
-  structured form `ρ·sin(x+Δ)+v` separating angle-type from vector-type errors (tan), and the integer facts of SfxProofs/Trig.lean.
+  structured form `ρ·sin(x+Δ)+v`, and the integer facts of SfxProofs/Trig.lean (exact range reduction, `sinPure`).
 -/
 namespace Sfx.C16
 open Sfx.C12
@@ -72,5 +76,14 @@ theorem statement_of_f23 (h23 : ∀ D : Layout, Supp D → D.f = 23 → ∀ a : 
       ∀ r it dbg, Trans.run (Trans.tan D a) = .ok (some r, it) dbg →
         |val D.f r - Real.tan (val D.f a)| ≤ (1 + Real.tan (val D.f a) ^ 2) / (2 : ℝ) ^ 14) : C16_statement :=
   TrigAccPf.C16_statement_of_f23 h23
+
+/-- the tan clause at full strength -/
+theorem tan_holds_64 (D : Layout) (hS : Supp D) (a : Int) (hb : |val D.f a| ≤ 100) (ht : |Real.tan (val D.f a)| ≤ 64) :
+    ∀ r it dbg, Trans.run (Trans.tan D a) = .ok (some r, it) dbg →
+      |val D.f r - Real.tan (val D.f a)| ≤ (1 + Real.tan (val D.f a) ^ 2) / (2 : ℝ) ^ 14 :=
+  TrigAccPf.C16_tan D hS a hb ht
+
+/-- C16 -/
+theorem holds : C16_statement := TrigAccPf.C16_statement_holds
 
 end Sfx.C16
